@@ -176,7 +176,8 @@ CallBits(e) ==
                     ELSE x.rid = <<>> \/ noInst
             \* content: "the emitted instruction has the method's opcode and carries the call's arguments in grammar order"
             contentOK == noInst \/ (/\ x.op = opnum /\ x.rt = e.rt /\ Flat(x.ops, 1) = e.flat /\ Conforms(x))
-        IN [bits |-> (IF structOK THEN {} ELSE {1, 8}) \cup (IF idOK THEN {} ELSE {2}) \cup (IF contentOK THEN {} ELSE {8}) \cup selBits \cup termBit,
+        \* (for a type request "appends exactly one declaration" / "always appends a declaration carrying that id" is C13's own clause)
+        IN [bits |-> (IF structOK THEN {} ELSE {1, 8} \cup (IF isType THEN {2} ELSE {})) \cup (IF idOK THEN {} ELSE {2}) \cup (IF contentOK THEN {} ELSE {8}) \cup selBits \cup termBit,
             next |-> IF fresh THEN {Returned(e) + 1} ELSE next,
             alloc |-> IF fresh THEN alloc \cup {Returned(e)} ELSE alloc]
 
